@@ -278,6 +278,10 @@ func runC04(p *core.Program, r *core.Report) {
 	}
 	name := core.FuncName(g.fn)
 	checkDrawRoutines(p, r, "R4.0", "R4.0", "R4.0")
+	// "each word uniformly from the list": the list holds each kept word once (= C10 R10.2/R10.3 re-run)
+	if c2 := resolveWLCtor(p, r, "R4.1"); c2 != nil {
+		r.Borrow("R4.1", func() { checkKeptSet(p, r, c2) })
+	}
 	r.Floor("R4.1", "draw sites in WLRecipe.Generate", len(g.draws), 3)
 	eng := &panicEngine{p: p, r: r, roles: GetRoles(p)}
 
